@@ -2,6 +2,7 @@ import AquaVerif.Drv.Proto
 import AquaVerif.Drv.RainPartition
 import AquaVerif.Drv.RootZone
 import AquaVerif.Drv.WaterStress
+import AquaVerif.Drv.Drainage
 /-
 Line-protocol driver: reads requests on stdin, writes one reply line per request.
 Imports only Mathlib-free modules, so it links as a native executable.
@@ -12,7 +13,8 @@ def handlers : List (String × Handler) := [
   ("rainfall_partition", hRainPartition),
   ("root_zone_water", hRootZone),
   ("water_stress", hWaterStress),
-  ("aeration_stress", hAerationStress)
+  ("aeration_stress", hAerationStress),
+  ("drainage", hDrainage)
 ]
 
 def step (ctx : Ctx) (line : String) : Ctx × String :=
